@@ -173,3 +173,279 @@ def second_opinion(solver: z3.Solver, timeout_s=60):
         return "error"
     first = out.strip().splitlines()[0] if out.strip() else "unknown"
     return first if first in ("sat", "unsat") else "unknown"
+
+
+# --------------------------------------------------------------------------- rational-function identities
+def ratnorm(t):
+    """z3 Real term -> (numerator, denominator) built by structural recursion over + - * / and numerals; anything
+    else (variables, ite, uninterpreted applications) is an atom.  t == numerator / denominator wherever every
+    denominator met on the way is non-zero (the caller discharges `denominator != 0` as a separate obligation)."""
+    one = z3.RealVal(1)
+    if sj.is_num(t):
+        return t, one
+    if z3.is_add(t):
+        parts = [ratnorm(c) for c in t.children()]
+        den = one
+        for _, d in parts:
+            if not (sj.is_num(d) and sj.num_val(d) == 1) and not any(d.eq(x) for x in _factors(den)):
+                den = d if (sj.is_num(den) and sj.num_val(den) == 1) else den * d
+        num = None
+        for n, d in parts:
+            # multiply n by den / d
+            rest = [f for f in _factors(den)]
+            for f in _factors(d):
+                for i, r in enumerate(rest):
+                    if r.eq(f):
+                        rest.pop(i)
+                        break
+            term = n
+            for r in rest:
+                if not (sj.is_num(r) and sj.num_val(r) == 1):
+                    term = term * r
+            num = term if num is None else num + term
+        return num, den
+    if z3.is_sub(t):
+        cs = t.children()
+        acc = cs[0]
+        for c in cs[1:]:
+            acc = acc + (-1) * c
+        return ratnorm(acc)
+    if z3.is_mul(t):
+        num, den = one, one
+        for c in t.children():
+            n, d = ratnorm(c)
+            num = n if (sj.is_num(num) and sj.num_val(num) == 1) else num * n
+            if not (sj.is_num(d) and sj.num_val(d) == 1):
+                den = d if (sj.is_num(den) and sj.num_val(den) == 1) else den * d
+        return num, den
+    if z3.is_div(t):
+        n1, d1 = ratnorm(t.arg(0))
+        n2, d2 = ratnorm(t.arg(1))
+        num = n1 if (sj.is_num(d2) and sj.num_val(d2) == 1) else n1 * d2
+        den = n2 if (sj.is_num(d1) and sj.num_val(d1) == 1) else d1 * n2
+        return num, den
+    if z3.is_app_of(t, z3.Z3_OP_UMINUS):
+        n, d = ratnorm(t.arg(0))
+        return -n, d
+    if z3.is_app_of(t, z3.Z3_OP_TO_REAL) and sj.is_num(t.arg(0)):
+        return z3.RealVal(t.arg(0).as_long()), one
+    return t, one
+
+
+def _factors(t):
+    if z3.is_mul(t):
+        out = []
+        for c in t.children():
+            out += _factors(c)
+        return out
+    return [t]
+
+
+def _pmul(a, b):
+    out = {}
+    for ma, ca in a.items():
+        for mb, cb in b.items():
+            d = dict(ma)
+            for k, e in mb:
+                d[k] = d.get(k, 0) + e
+            m = tuple(sorted(d.items()))
+            c = out.get(m, 0) + ca * cb
+            if c == 0:
+                out.pop(m, None)
+            else:
+                out[m] = c
+    return out
+
+
+def _padd(a, b, sign=1):
+    out = dict(a)
+    for m, c in b.items():
+        v = out.get(m, 0) + sign * c
+        if v == 0:
+            out.pop(m, None)
+        else:
+            out[m] = v
+    return out
+
+
+def to_poly(t, atoms, memo=None):
+    """z3 Real term -> {monomial: Fraction}; monomial = sorted tuple of (atom id, power).  Ring normal form with
+    exact rational coefficients; non-arithmetic sub-terms (variables, ite, uninterpreted applications) are atoms."""
+    from fractions import Fraction
+    memo = {} if memo is None else memo
+    k = t.get_id()
+    if k in memo:
+        return memo[k]
+    if sj.is_num(t):
+        v = sj.num_val(t)
+        r = {(): v} if v != 0 else {}
+    elif z3.is_add(t):
+        r = {}
+        for c in t.children():
+            r = _padd(r, to_poly(c, atoms, memo))
+    elif z3.is_sub(t):
+        cs = t.children()
+        r = to_poly(cs[0], atoms, memo)
+        for c in cs[1:]:
+            r = _padd(r, to_poly(c, atoms, memo), -1)
+    elif z3.is_mul(t):
+        r = {(): Fraction(1)}
+        for c in t.children():
+            r = _pmul(r, to_poly(c, atoms, memo))
+    elif z3.is_app_of(t, z3.Z3_OP_UMINUS):
+        r = {m: -c for m, c in to_poly(t.arg(0), atoms, memo).items()}
+    elif z3.is_app_of(t, z3.Z3_OP_POWER) and sj.is_num(t.arg(1)) and sj.num_val(t.arg(1)).denominator == 1 and 0 <= sj.num_val(t.arg(1)) <= 12:
+        base = to_poly(t.arg(0), atoms, memo)
+        r = {(): Fraction(1)}
+        for _ in range(int(sj.num_val(t.arg(1)))):
+            r = _pmul(r, base)
+    elif z3.is_app_of(t, z3.Z3_OP_TO_REAL) and sj.is_num(t.arg(0)):
+        v = Fraction(t.arg(0).as_long())
+        r = {(): v} if v != 0 else {}
+    else:
+        atoms[k] = t
+        r = {((k, 1),): Fraction(1)}
+    memo[k] = r
+    return r
+
+
+def poly_term(p, atoms):
+    """canonical z3 term of a polynomial in ring normal form (monomials in a fixed order)"""
+    if not p:
+        return z3.RealVal(0)
+    terms = []
+    for m in sorted(p):
+        c = p[m]
+        t = sj.RV(c)
+        for k, e in m:
+            for _ in range(e):
+                t = t * atoms[k]
+        terms.append(t)
+    return z3.Sum(terms) if len(terms) > 1 else terms[0]
+
+
+def poly_is_zero(t):
+    """ring normal form of t (exact rational coefficients); returns (is the zero polynomial, canonical residual term)"""
+    atoms = {}
+    p = to_poly(z3.simplify(t), atoms)
+    return (not p), poly_term(p, atoms)
+
+
+def positive_atoms(assumptions):
+    """variables x for which the assumptions contain the literal `x > 0` (or `0 < x`)"""
+    pos = set()
+    for a in assumptions:
+        for c in (a.children() if z3.is_and(a) else [a]):
+            if z3.is_app_of(c, z3.Z3_OP_GT) and sj.is_num(c.arg(1)) and sj.num_val(c.arg(1)) == 0 and z3.is_const(c.arg(0)):
+                pos.add(c.arg(0).get_id())
+            if z3.is_app_of(c, z3.Z3_OP_LT) and sj.is_num(c.arg(0)) and sj.num_val(c.arg(0)) == 0 and z3.is_const(c.arg(1)):
+                pos.add(c.arg(1).get_id())
+            if z3.is_not(c):          # the simplifier writes x > 0 as Not(x <= 0)
+                d = c.arg(0)
+                if z3.is_app_of(d, z3.Z3_OP_LE) and sj.is_num(d.arg(1)) and sj.num_val(d.arg(1)) == 0 and z3.is_const(d.arg(0)):
+                    pos.add(d.arg(0).get_id())
+                if z3.is_app_of(d, z3.Z3_OP_GE) and sj.is_num(d.arg(0)) and sj.num_val(d.arg(0)) == 0 and z3.is_const(d.arg(1)):
+                    pos.add(d.arg(1).get_id())
+    return pos
+
+
+def syntactically_positive(t, pos):
+    """t is built from positive numerals and variables known positive with + and * only (hence > 0)"""
+    if sj.is_num(t):
+        return sj.num_val(t) > 0
+    if z3.is_const(t):
+        return t.get_id() in pos
+    if z3.is_add(t) or z3.is_mul(t):
+        return all(syntactically_positive(c, pos) for c in t.children())
+    return False
+
+
+def prove_rat_eq(lhs, rhs, assumptions=(), timeout_ms=None, subst=()):
+    """lhs == rhs for rational functions over the reals: cross-multiplied and expanded to a sum of monomials by z3's
+    simplifier (after eliminating the variables in `subst`, which the assumptions determine); the side condition that
+    every cancelled denominator is non-zero under the assumptions is decided syntactically (a polynomial with positive
+    coefficients in variables assumed positive) or by the solver.  Falls back to the plain solver query otherwise."""
+    t0 = time.time()
+    lhs, rhs = z3.simplify(lhs), z3.simplify(rhs)
+    n1, d1 = ratnorm(lhs)
+    n2, d2 = ratnorm(rhs)
+    poly = n1 * d2 - n2 * d1
+    if subst:
+        poly = z3.substitute(poly, *subst)
+    zero, resid = poly_is_zero(poly)
+    if zero:
+        pos = positive_atoms(assumptions)
+        dens = [d for d in (d1, d2) if not (sj.is_num(d) and sj.num_val(d) != 0) and not syntactically_positive(d, pos)]
+        ok = True
+        if dens:
+            side = prove(z3.And(*[d != 0 for d in dens]), assumptions, timeout_ms=timeout_ms)
+            ok = side.verdict == "unsat"
+        if ok:
+            STATS.queries += 1
+            STATS.unsat += 1
+            STATS.time += time.time() - t0
+            return Result("unsat", time.time() - t0, reason="rational normal form")
+    return prove(lhs == rhs, assumptions, timeout_ms=timeout_ms)
+
+
+def resolve_ites(t, assumptions, budget_ms=2000):
+    """replace every `ite(c, a, b)` whose condition is decided by the assumptions (assumptions |= c or |= not c, each
+    checked by the solver) by the corresponding branch.  Sound: the result equals t wherever the assumptions hold."""
+    cache = {}
+    s = z3.Solver()
+    s.set("timeout", budget_ms)
+    for a in assumptions:
+        s.add(a)
+
+    def decide(c):
+        k = c.get_id()
+        if k not in cache:
+            v = None
+            s.push(); s.add(z3.Not(c))
+            if str(s.check()) == "unsat":
+                v = True
+            s.pop()
+            if v is None:
+                s.push(); s.add(c)
+                if str(s.check()) == "unsat":
+                    v = False
+                s.pop()
+            cache[k] = (v, c)
+        return cache[k][0]
+
+    memo = {}
+
+    def go(e):
+        k = e.get_id()
+        if k in memo:
+            return memo[k][0]
+        if z3.is_app_of(e, z3.Z3_OP_ITE):
+            v = decide(go(e.arg(0))) if not (z3.is_true(e.arg(0)) or z3.is_false(e.arg(0))) else z3.is_true(e.arg(0))
+            if v is True:
+                out = go(e.arg(1))
+            elif v is False:
+                out = go(e.arg(2))
+            else:
+                out = z3.If(go(e.arg(0)), go(e.arg(1)), go(e.arg(2)))
+        elif z3.is_app(e) and e.num_args() > 0:
+            ch = [go(c) for c in e.children()]
+            out = e.decl()(*ch) if any(not a.eq(b) for a, b in zip(ch, e.children())) else e
+        else:
+            out = e
+        memo[k] = (out, e)
+        return out
+    return go(t)
+
+
+def has_ite(t):
+    seen = set()
+    stack = [t]
+    while stack:
+        e = stack.pop()
+        if e.get_id() in seen:
+            continue
+        seen.add(e.get_id())
+        if z3.is_app_of(e, z3.Z3_OP_ITE):
+            return True
+        stack.extend(e.children())
+    return False
